@@ -255,7 +255,7 @@ func runBatch(specPath string) int {
 
 // ---------- generator ----------
 
-var endings = []string{"pass", "pass", "fail", "skip", "stop", "setupfail", "fail-early"}
+var endings = []string{"pass", "pass", "fail", "skip", "stop", "setupfail", "fail-early", "fail-wait"}
 
 func genBatch(r *rand.Rand, dir string, idx int) batchSpec {
 	n := 2 + r.Intn(11)
@@ -295,6 +295,9 @@ func genBatch(r *rand.Rand, dir string, idx int) batchSpec {
 		}
 		addMark()
 		jobs := r.Intn(3)
+		if sp.Ending == "fail-wait" {
+			jobs = 0 // a plain wait would block on them: this ending starts its own jobs
+		}
 		for j := 0; j < jobs; j++ {
 			pf := filepath.Join(spec.PidDir, fmt.Sprintf("%s-%d", tok, j))
 			if r.Intn(3) == 0 && sp.Ending != "skip" {
@@ -312,6 +315,14 @@ func genBatch(r *rand.Rand, dir string, idx int) batchSpec {
 		}
 		addMark()
 		switch sp.Ending {
+		case "fail-wait":
+			// a plain wait that fails on an early job while later jobs are still running:
+			// the run ends there and must still stop and reap the later ones
+			fmt.Fprintf(&sb, "exec vhelper exit 1 early-%s &\n", tok)
+			for j := 0; j < 2; j++ {
+				fmt.Fprintf(&sb, "exec vhelper block %s &\n", filepath.Join(spec.PidDir, fmt.Sprintf("%s-w%d", tok, j)))
+			}
+			sb.WriteString("wait\n")
 		case "fail":
 			sb.WriteString("exists no-such-file\n")
 		case "skip":
@@ -392,7 +403,7 @@ func main() {
 		return
 	}
 	vlib.Main("C04", "exploration", 12*time.Minute, func(r *vlib.Run) {
-		r.Rule("batches of 2-12 generated scripts per RunT call (explicit files incl. duplicate base names from different directories), each script: listing of $WORK first, child-process environment, own variable / file / sub-directory / background jobs (SIGINT-terminable and slow-to-die), a rendezvous at which all parallel scripts overlap, ownership re-check, read-only trees (0555/0444), three defer marks; endings pass / fail early / fail late / skip / stop / failing Setup; retention none / TestWork / WorkdirRoot; both T styles; every batch runs twice (parallel with subtests released after RunT returned, and one script at a time) in a process of its own as uid 65534 or root. Non-trivial/distinct = distinct (ending multiset, retention, mode, uid) batches in which the rendezvous completed.")
+		r.Rule("batches of 2-12 generated scripts per RunT call (explicit files incl. duplicate base names from different directories), each script: listing of $WORK first, child-process environment, own variable / file / sub-directory / background jobs (SIGINT-terminable and slow-to-die), a rendezvous at which all parallel scripts overlap, ownership re-check, read-only trees (0555/0444), three defer marks; endings pass / fail early / fail late / failing plain wait with later jobs still running / skip / stop / failing Setup; retention none / TestWork / WorkdirRoot; both T styles; every batch runs twice (parallel with subtests released after RunT returned, and one script at a time) in a process of its own as uid 65534 or root. Non-trivial/distinct = distinct (ending multiset, retention, mode, uid) batches in which the rendezvous completed.")
 		r.Assume("grandchildren of started processes are not tracked; background helpers always die on SIGINT (possibly 150 ms late)")
 		base := vlib.Scratch()
 		os.Chmod(base, 0o777)
@@ -462,7 +473,9 @@ func main() {
 				case <-time.After(75 * time.Second):
 					cmd.Process.Signal(syscall.SIGQUIT)
 					<-done
-					r.Inconclusive(fmt.Sprintf("batch %d (%s) did not finish within 75 seconds", bi, mode))
+					eb, _ := os.ReadFile(filepath.Join(dir, "stderr-"+mode))
+					os.WriteFile(filepath.Join(vlib.VerifDir, ".build", "C04", fmt.Sprintf("batch-timeout-%d-%s.txt", bi, mode)), eb, 0o644)
+					r.Inconclusive(fmt.Sprintf("batch %d (%s) did not finish within 75 seconds (goroutine dump kept under .build/C04/)", bi, mode))
 					timeouts++
 				}
 				errf.Close()
@@ -521,7 +534,7 @@ func main() {
 					if fmt.Sprint(sr.Defers) != fmt.Sprint(want) {
 						mk("deferred-functions", sp.Name, fmt.Sprintf("deferred functions ran as %v, registered order demands %v (ending %s)", sr.Defers, want, sp.Ending), sr.Log)
 					}
-					wantV := map[string]string{"pass": "pass", "fail": "fail", "fail-early": "fail", "skip": "skip", "stop": "pass", "setupfail": "fail"}[sp.Ending]
+					wantV := map[string]string{"pass": "pass", "fail": "fail", "fail-early": "fail", "fail-wait": "fail", "skip": "skip", "stop": "pass", "setupfail": "fail"}[sp.Ending]
 					if sr.Verdict != wantV {
 						mk("wrong-verdict", sp.Name, fmt.Sprintf("ending %q must be reported as %s, got %s", sp.Ending, wantV, sr.Verdict), sr.Log)
 					}
